@@ -246,6 +246,10 @@ class SimEnv:
         """Change the scratch file system between two commands of one process (durable state that changed)."""
         for rel, f in (update or {}).items():
             p = os.path.join(self.dir, rel)
+            old_times = None
+            if f.get("keep_mtime") and os.path.isfile(p):
+                st = os.stat(p)
+                old_times = (st.st_atime_ns, st.st_mtime_ns)
             if os.path.islink(p) or os.path.isfile(p):
                 os.unlink(p)
             elif os.path.isdir(p):
@@ -261,6 +265,8 @@ class SimEnv:
             else:
                 with open(p, "wb") as fh:
                     fh.write(unb64(f["b64"]) if "b64" in f else f.get("text", "").encode("utf-8"))
+                if old_times:
+                    os.utime(p, ns=old_times)  # same size class of change, same timestamps: only the content differs
 
     def run(self, reuse_dir=False):
         import json_to_models.cli as cli
@@ -308,6 +314,22 @@ class SimEnv:
         if saved.get("Path") is not None:
             cli.Path = self.make_path_class()
         import types as _types
+
+        class ClockDate(_dt.date):
+            @classmethod
+            def today(cls):
+                return env.clock.now().date()
+
+        # the same simulated clock for every other module of the package that imported datetime / date by name
+        other_saved = []
+        for mname, mod in list(sys.modules.items()):
+            if mod is None or mod is cli or not (mname == "json_to_models" or mname.startswith("json_to_models.")):
+                continue
+            for attr, repl in (("datetime", Clock), ("date", ClockDate)):
+                cur = vars(mod).get(attr)
+                if cur is _dt.datetime and attr == "datetime" or cur is _dt.date and attr == "date":
+                    other_saved.append((mod, attr, cur))
+                    setattr(mod, attr, repl)
         if isinstance(saved.get("datetime"), _types.ModuleType):
             shim = _types.SimpleNamespace(**{k: v for k, v in vars(saved["datetime"]).items() if not k.startswith("__")})
             shim.datetime = Clock
@@ -357,6 +379,8 @@ class SimEnv:
         finally:
             sys.argv, sys.stdout, sys.stderr = old_argv, old_out, old_err
             os.chdir(old_cwd)
+            for mod, attr, cur in other_saved:
+                setattr(mod, attr, cur)
             for k, v in saved.items():
                 if v is None and not hasattr(cli, k):
                     continue
